@@ -131,6 +131,18 @@ def step (toks : List String) : String :=
       | some (v, r) => match mkV r with
         | some (w, []) => qs (fromToFixed v w) | _ => bad
       | _ => bad
+    | "fromtotau" => match a with
+      | tau :: r => match mkV r with
+        | some (v, r') => match mkV r' with
+          | some (w, []) => qs (fromToFixedTau tau v w) | _ => bad
+        | _ => bad
+      | _ => bad
+    | "newaxestau" => match a with
+      | tau :: r => match mkV r with
+        | some (v, r') => match mkV r' with
+          | some (w, []) => qs (toNewAxesWith (fromToFixedTau tau) true v w) | _ => bad
+        | _ => bad
+      | _ => bad
     | "angleaxis" => match a with
       | ang :: r => match mkV r with
         | some (ax, []) => qs (angleAxis ang ax) | _ => bad
